@@ -51,6 +51,9 @@ FIXED_GARBAGE = [
     "0 = B 120000", "  0 = TS 4", "0 = TS 4 2", "0 = A 100", "  0 = N 0 0", "0 = S 2 10", "0 = E solo",
     '0 = E "section a"', '0 = E "lyric b"', '  0 = E "t"', '0 = E "unterminated', "0 = E two words",
     "[Song]", "{x", "}x", "0 = B 1.5", "0 = B -5", "0 = TS 4 2 1", "0 = A 1 2", "0 = N 0 0x",
+    # what other formats call a comment (here: one more unparsable line, reported like any other)
+    "// merged from part2.chart", "  // 96 = N 3 0", "//", "# comment", "  # 0 = N 0 0", "; comment", "-- x", "/* x */",
+    "<!-- x -->", "REM x", "' x", "% x", "//0 = B 120000", "#", ";",
 ]
 
 
